@@ -65,8 +65,25 @@ fn vars(b: &B, max_prefixes: usize) -> Vec<Vec<u8>> {
 
 /// evaluate `f` on the real code; `Some(response)` becomes a correspondence case, a panic a `no-panic`
 /// failure with the input
-fn ask(ctx: &mut Ctx, what: &str, bytes: &[u8], f: impl FnOnce() -> Option<(String, String)>) {
+/// tell the watchdog / crash tracer what is being evaluated (as `Ctx::call` does)
+fn mark(what: &str, bytes: &[u8]) {
     PROGRESS.fetch_add(1, Ordering::Relaxed);
+    {
+        let mut cur = CURRENT.lock().unwrap();
+        cur.0.clear();
+        cur.0.push_str(what);
+        cur.1.clear();
+        cur.1.extend_from_slice(bytes);
+    }
+    if let Some(t) = TRACE.lock().unwrap().as_mut() {
+        use std::io::Write;
+        let _ = writeln!(t, "{} {}", what, hex(bytes));
+        let _ = t.flush();
+    }
+}
+
+fn ask(ctx: &mut Ctx, what: &str, bytes: &[u8], f: impl FnOnce() -> Option<(String, String)>) {
+    mark(what, bytes);
     match catch(f) {
         Ok(Some((req, resp))) => {
             ctx.oracle("no-panic", true, String::new, String::new);
@@ -532,6 +549,7 @@ fn mv_str(v: Option<MapVariant>) -> String {
 
 /// cases of one readable format 14 subtable: `map_variant`, the iterator, `closure_glyphs`
 fn cases14(ctx: &mut Ctx, bytes: &[u8]) {
+    mark("Cmap14::read + records", bytes);
     let t = match catch(|| Cmap14::read(FontData::new(bytes))) {
         Ok(Ok(t)) => t,
         Ok(Err(_)) => {
@@ -697,6 +715,7 @@ fn cmap_table(subs: &[(u16, u16, usize)], tables: &[B]) -> B {
 }
 
 fn case_cmap(ctx: &mut Ctx, bytes: &[u8]) {
+    mark("Cmap::read", bytes);
     let cmap = match catch(|| Cmap::read(FontData::new(bytes))) {
         Ok(Ok(t)) => t,
         Ok(Err(_)) => {
@@ -879,14 +898,32 @@ fn name_string_case(ctx: &mut Ctx, bytes: &[u8], storage: &[u8], pid: u16, eid: 
                 Encoding::MacRoman => len as usize,
                 Encoding::Unknown => 0,
             };
-            let chars: Vec<u32> = s.chars().take(cap + 2).map(|c| c as u32).collect();
-            ctx.oracle("name.chars-bounded", chars.len() <= cap, || format!("{req} in {}", hex(bytes)), || format!("{} chars from {} bytes ({})", chars.len(), len, enc_char(enc)));
-            if chars.len() <= cap {
-                // `Display` walks the same iterator
+            mark(&req, bytes);
+            // every walk of the string inside one `catch`: a panic of `CharIter` is a `no-panic` failure with the input
+            let walks = catch(|| {
+                let chars: Vec<u32> = s.chars().take(cap + 2).map(|c| c as u32).collect();
+                if chars.len() > cap {
+                    return (chars, None);
+                }
+                // `Display`, `IntoIterator` and `SomeString::iter_chars` walk the same iterator
                 let shown: Vec<u32> = s.to_string().chars().map(|c| c as u32).collect();
-                ctx.oracle("name.display-is-chars", shown == chars, || format!("{req} in {}", hex(bytes)), || format!("{shown:?} vs {chars:?}"));
                 let again: Vec<u32> = s.into_iter().map(|c| c as u32).collect();
+                let boxed: Vec<u32> = read_fonts::traversal::SomeString::iter_chars(&s).take(cap + 2).map(|c| c as u32).collect();
+                (chars, Some((shown, again, boxed)))
+            });
+            let (chars, others) = match walks {
+                Ok(w) => w,
+                Err(m) => {
+                    ctx.oracle("no-panic", false, || format!("{req} in {}", hex(bytes)), || format!("panicked: {m}"));
+                    return;
+                }
+            };
+            ctx.oracle("no-panic", true, String::new, String::new);
+            ctx.oracle("name.chars-bounded", chars.len() <= cap, || format!("{req} in {}", hex(bytes)), || format!("{} chars from {} bytes ({})", chars.len(), len, enc_char(enc)));
+            if let Some((shown, again, boxed)) = others {
+                ctx.oracle("name.display-is-chars", shown == chars, || format!("{req} in {}", hex(bytes)), || format!("{shown:?} vs {chars:?}"));
                 ctx.oracle("name.into-iter-is-chars", again == chars, || format!("{req} in {}", hex(bytes)), || format!("{again:?} vs {chars:?}"));
+                ctx.oracle("name.iter-chars-is-chars", boxed == chars, || format!("{req} in {}", hex(bytes)), || format!("{boxed:?} vs {chars:?}"));
             }
             let start = off as usize;
             ctx.count(match enc {
@@ -904,6 +941,7 @@ fn name_string_case(ctx: &mut Ctx, bytes: &[u8], storage: &[u8], pid: u16, eid: 
 }
 
 fn case_name(ctx: &mut Ctx, bytes: &[u8]) {
+    mark("Name::read + NameRecord::string + chars", bytes);
     let name = match catch(|| Name::read(FontData::new(bytes))) {
         Ok(Ok(t)) => t,
         Ok(Err(_)) => {
@@ -915,7 +953,6 @@ fn case_name(ctx: &mut Ctx, bytes: &[u8]) {
             return;
         }
     };
-    PROGRESS.fetch_add(1, Ordering::Relaxed);
     let r = catch(|| {
         let sd = name.string_data();
         let storage = sd.as_bytes().to_vec();
@@ -1188,34 +1225,36 @@ pub fn run(ctx: &mut Ctx) {
     // ---- name: static tables
     {
         let all: Vec<u32> = (0..256).collect();
-        let resp: Vec<String> = all.iter().map(|b| catch(|| MacRomanMapping.decode(*b as u8) as u32).map(|c| c.to_string()).unwrap_or("trap".into())).collect();
-        ctx.case(format!("ht.macdec {}", join(&all)), join(&resp));
+        ask(ctx, "MacRomanMapping::decode(0..=255)", &[], || {
+            let resp: Vec<String> = all.iter().map(|b| (MacRomanMapping.decode(*b as u8) as u32).to_string()).collect();
+            Some((format!("ht.macdec {}", join(&all)), join(&resp)))
+        });
+        // `decode` may be what panics: the arguments of `encode` come from the reference table of misc.rs' ROMAN.TXT copy
+        let decoded: Vec<u32> = catch(|| (0..256u32).map(|b| MacRomanMapping.decode(b as u8) as u32).collect()).unwrap_or_default();
         let mut cs: Vec<u32> = vec![0, 0x7F, 0x80, 0x9F, 0xA0, 0xA4, 0xFF, 0x100, 0xFFFF, 0x10000, 0x10FFFF, 0xF8FF, 0xFB02, 0xFB03, 0xD7FF, 0xE000];
-        cs.extend((0..256u32).map(|b| MacRomanMapping.decode(b as u8) as u32));
-        cs.extend((0..256u32).flat_map(|b| {
-            let c = MacRomanMapping.decode(b as u8) as u32;
-            [c.wrapping_sub(1), c + 1]
-        }));
+        cs.extend(decoded.iter().copied());
+        cs.extend(decoded.iter().flat_map(|c| [c.wrapping_sub(1), c + 1]));
         cs.extend((0..40 * k).map(|_| ctx.rng.below(0x2800) as u32));
         cs.retain(|c| char::from_u32(*c).is_some());
         cs.sort();
         cs.dedup();
         for chunk in cs.chunks(64) {
-            let resp: Vec<String> = chunk
-                .iter()
-                .map(|c| match catch(|| MacRomanMapping.encode(char::from_u32(*c).unwrap())) {
-                    Ok(Some(b)) => {
-                        ctx.count("macenc.some");
-                        b.to_string()
-                    }
-                    Ok(None) => {
-                        ctx.count("macenc.none");
-                        "n".into()
-                    }
-                    Err(_) => "trap".into(),
-                })
-                .collect();
-            ctx.case(format!("ht.macenc {}", join(chunk)), join(&resp));
+            let mut some = 0u64;
+            ask(ctx, &format!("MacRomanMapping::encode {}", join(chunk)), &[], || {
+                let resp: Vec<String> = chunk
+                    .iter()
+                    .map(|c| match MacRomanMapping.encode(char::from_u32(*c).unwrap()) {
+                        Some(b) => {
+                            some += 1;
+                            b.to_string()
+                        }
+                        None => "n".into(),
+                    })
+                    .collect();
+                Some((format!("ht.macenc {}", join(chunk)), join(&resp)))
+            });
+            ctx.count_n("macenc.some", some);
+            ctx.count_n("macenc.none", chunk.len() as u64 - some);
         }
         for p in (0..6u16).chain([0x7FFF, 0xFFFF]) {
             for e in (0..12u16).chain([0x7FFF, 0xFFFF]) {
